@@ -142,6 +142,27 @@ class DropIn(Monitor):
             r = value.replace(parameters=some)
             if not isinstance(r, S) or list(r.parameters) != [p.name for p in some]:
                 self.V('replace-parameters-override', 'Signature.replace(parameters=...) did not take the given parameters', w)
+            # parameters handed over as plain inspect.Parameter objects (deprecated, supported): every one of them
+            # comes back upgraded, however many there are
+            import warnings
+            plain_ps = [inspect.Parameter(q.name, q.kind, default=q.default, annotation=q.annotation)
+                        for q in value.parameters.values()]
+            if plain_ps:
+                ctx.count('C14.replace_with_plain_parameters')
+                with warnings.catch_warnings():
+                    warnings.simplefilter('ignore')
+                    for label, build in (('replace(parameters=<plain parameters>)', lambda: value.replace(parameters=plain_ps)),
+                                         ('UpgradedSignature(<plain parameters>)', lambda: S(plain_ps)),
+                                         ('replace(parameters=<upgraded first, plain rest>)',
+                                          lambda: value.replace(parameters=list(value.parameters.values())[:1] + plain_ps[1:]))):
+                        r = build()
+                        bare = [q.name for q in r.parameters.values() if not isinstance(q, P)]
+                        if bare:
+                            self.V('plain-parameters-not-upgraded', '%s returns a signature whose parameter(s) %s are bare inspect.Parameter objects' % (label, bare), w)
+                            break
+                        if [str(q) for q in r.parameters.values()] != [str(q) for q in value.parameters.values()]:
+                            self.V('plain-parameters-change-signature', '%s prints other parameters' % label, dict(w, got=str(r)))
+                            break
             # every field overridden alone, also with falsy values: the override wins, everything else is kept
             empty_map = {}
             for label, kw, check in (
